@@ -201,10 +201,19 @@ CLAIMED["C10"] = {
             "ValueError, merge refines the grouping reference of C05 (update_refines_spec_strategies, "
             "update_strategies_levels, update_error_collision, update_merge_refines_spec; the level-2 closure is "
             "preserved). GTF updates: create + update equals create from the concatenated file when gene/transcript "
-            "inference is disabled (update_after_create_gtf); Partial: with inference ON the re-derivation during update "
-            "is not covered by a theorem (stated as update_gtf_exact_full); the state of the main "
-            "file after a failed update is left unspecified. Correspondence: exhaustive depth-2 histories over a 9-op "
-            "alphabet plus random depth <= 8 on file databases, full table dump after every step; oracle: independent "
+            "inference is disabled (update_after_create_gtf); with inference ON (update_gtf_exact, history_gtf, for any "
+            "number of updates and any flags per update): stored rows - also derived ones, with the extent they were given "
+            "when first derived (created_transcript_frozen: the real code does NOT re-span a derived transcript or gene "
+            "that gains exons later) - stay in place, the new lines are appended under keys that continue the numbering, "
+            "derived rows are added exactly for the ids that had none, the relation set is exactly that of the whole "
+            "history, ids stay distinct and no generated key can be handed out again; needs that no transcript/gene id "
+            "extended by _<n> is itself an id (SuffixOk, necessity proved and replayed on the real code). The state of "
+            "the main file after a failed update is left unspecified, except that keys handed out for rows it committed "
+            "are never handed out again, also after reopening (oracle; defect D23, repaired). Correspondence: exhaustive "
+            "depth-2 histories over a 9-op alphabet plus random depth <= 8 on file databases, full table dump after every "
+            "step; histories with updates failing part-way (source raising at every position, id clashes that commit "
+            "mid-import) followed by further updates, deletes and reopenings; the World model (files, .bak, failing "
+            "writes) driven with the same scripts; a loaded database with non-empty counters; oracle: independent "
             "dict/set reference, counter table vs keys handed out, .bak comparison with the source failing at every "
             "position.",
     "note": "Trusted: Lean kernel + standard axioms; list model of the sqlite tables and of the two-connection update "
